@@ -277,26 +277,35 @@ bool Instance::rewind() {
 bool Instance::eval(const size_t argc, char* const* argv) {
     if (argc < 1) return false;
     CScript script;
-    for (int i = 0; i < argc; i++) {
-        const char* v = argv[i];
-        const size_t vlen = strlen(v);
+    // the tokens are read the way the tokens of a script are (decimal numbers of any size, opcode names, hex with or
+    // without 0x, inline expressions, [sub-scripts] - which may be spread over several arguments and be followed by
+    // another token without a separator) and pushed in the same - minimal - form, so that `exec` runs the operations
+    // the script compiler would have produced for them
+    std::vector<const char*> tokens;
+    int depth = 0;
+    for (size_t i = 0; i < argc; i++) {
         // empty strings are ignored
-        if (!v[0]) continue;
-        // the tokens are read the way the tokens of a script are (decimal numbers of any size, opcode names, hex with or
-        // without 0x, inline expressions) and pushed in the same - minimal - form, so that `exec` runs the operations the
-        // script compiler would have produced for them
-        try {
-            Value val(v, vlen);
+        if (!argv[i][0]) continue;
+        tokens.push_back(argv[i]);
+        for (const char* c = argv[i]; *c; ++c) depth += (*c == '[') - (*c == ']');
+    }
+    if (depth != 0) {
+        // (refused here: the script reader ends the process on an unclosed bracket)
+        fprintf(stderr, "error: invalid argument: unbalanced [brackets]\n");
+        return false;
+    }
+    try {
+        for (const Value& val : Value::parse_args(tokens)) {
             if (val.type == Value::T_STRING) {
-                fprintf(stderr, "error: invalid opcode %s\n", v);
+                fprintf(stderr, "error: invalid opcode %s\n", val.str.c_str());
                 return false;
             }
             val >> script;
-        } catch (const std::exception& ex) {
-            // an inline expression that cannot be evaluated, e.g. int() of more than 8 bytes
-            fprintf(stderr, "error: invalid argument %s: %s\n", v, ex.what());
-            return false;
         }
+    } catch (const std::exception& ex) {
+        // an inline expression that cannot be evaluated, e.g. int() of more than 8 bytes
+        fprintf(stderr, "error: invalid argument: %s\n", ex.what());
+        return false;
     }
     CScript::const_iterator it = script.begin();
     // the executed operations live in a temporary script: an OP_CODESEPARATOR among them must not leave the
